@@ -399,7 +399,7 @@ def k_family(params):
     p0 = float(seed_orbit.initial_state[idx])
     step = params["step"]
     mm = params["max_members"]
-    lo, hi = sorted((p0 - 1e-9, p0 + params["target_span"] * (1 if step > 0 else -1)))
+    lo, hi = (p0 - 1e-9, p0 + params["target_span"]) if step > 0 else (p0 - params["target_span"], p0 + 1e-9)  # the seed itself is inside
     seed_orbit.continuation_config = OrbitContinuationConfig(state=(SynodicState.Z,) if fam.startswith("halo") else (SynodicState.X,), stepper=stepper)
     opts = OrbitContinuationOptions(target=([lo], [hi]), step=(step,), max_members=mm, max_retries_per_step=5, step_min=1e-8, step_max=1.0, shrink_policy=None,
                                     extra_params=seed_orbit.correction_options)
@@ -436,6 +436,25 @@ def k_family(params):
         d = np.diff(pars)
         if np.max(np.abs(np.abs(d) - abs(step))) > 1e-9 and int(result.rejected_count) == 0:
             V("natural_step", "consecutive members differ by %s in the continuation parameter, step is %g (no rejection occurred)" % (d.tolist(), step), d, step)
+    # OrbitFamily.from_result: same members, same order, their own periods and parameter values
+    try:
+        from hiten.system.family import OrbitFamily
+        famobj = OrbitFamily.from_result(result)
+        if len(famobj) != n:
+            V("orbit_family/length", "OrbitFamily.from_result has %d orbits, the result has %d members" % (len(famobj), n), len(famobj), n)
+        else:
+            fp = np.asarray(famobj.periods, dtype=float)
+            if len(periods) == n and np.max(np.abs(fp - np.asarray(periods))) > 0:
+                V("orbit_family/periods", "OrbitFamily.periods %s differ from the members' own periods %s" % (fp.tolist(), periods), fp, periods)
+            pv = np.asarray(famobj.parameter_values, dtype=float)
+            if np.max(np.abs(pv - np.asarray(pars))) > 1e-12:
+                V("orbit_family/parameter_values", "OrbitFamily.parameter_values %s are not the members' continuation parameters %s" % (pv.tolist(), pars), pv, pars)
+            for i, (a, b) in enumerate(zip(famobj, members)):
+                if np.max(np.abs(np.asarray(a.initial_state) - np.asarray(b.initial_state))) > 0:
+                    V("orbit_family/members", "OrbitFamily orbit %d is not member %d of the result" % (i, i))
+                    break
+    except Exception as exc:
+        V("orbit_family/raises", "OrbitFamily.from_result raised %s: %s" % (type(exc).__name__, str(exc)[:120]))
     return res(evals=n, nontrivial=n if n >= 2 else 0, viol=list(viol.values()), stats={"family_members_checked": n},
                sample={"tag": tag, "members": n, "parameters": pars, "periods": periods, "max_closure": max(closures) if closures else None})
 
